@@ -275,7 +275,10 @@ func TestVerifCacheStress(t *testing.T) {
 					if record {
 						rec.add(cEvent{G: cGoid(), Ev: "RetReturn", Ver: v})
 					}
-				default: // a peer asks for the template (memcache_rpc.go: IRPC.Get)
+				default: // a peer asks for the template (memcache_rpc.go: IRPC.Get) - sometimes for one nobody ever announced
+					if rng.Intn(3) == 0 {
+						id = 5000
+					}
 					v := 0
 					if tr, ok := cache.retrieve(uint16(id), e); ok { // (NetFlow v9 has no peer RPC: a plain lookup)
 						v = cVersionOf(tr)
